@@ -24,6 +24,7 @@ mod ops_const;
 mod ops_edwards;
 mod ops_field;
 mod ops_group;
+mod ops_misc;
 mod ops_mont;
 mod ops_ristretto;
 mod ops_scalar;
@@ -404,6 +405,7 @@ fn registry() -> HashMap<&'static str, OpFn> {
     ops_group::register(&mut m);
     ops_const::register(&mut m);
     ops_vec::register(&mut m);
+    ops_misc::register(&mut m);
     mem::register(&mut m);
     taint::register(&mut m);
     m
